@@ -88,6 +88,38 @@ problem_t make_problem(Rng& rng, bool allow_classification, bool with_missing)
         columns.push_back(yc);
         target = columns.size() - 1U;
     }
+    if (rng.coin(1, 3))
+    {
+        // more than one feature of every other kind as well: a second single-label feature and two structured ones
+        auto yc = columns[target];
+        columns.erase(columns.begin() + static_cast<std::ptrdiff_t>(target));
+        auto c2 = make_sclass_column("c2", 2, n);
+        auto t1 = make_struct_column("t1", feature_type::float64, make_dims(2, 1, 1), n);
+        auto t2 = make_struct_column("t2", feature_type::float32, make_dims(1, 2, 1), n);
+        for (int64_t s = 0; s < n; ++s)
+        {
+            c2.flat[static_cast<size_t>(s)] = static_cast<double>(rng.range(0, 1));
+            for (int64_t k = 0; k < 2; ++k)
+            {
+                t1.flat[static_cast<size_t>(2 * s + k)] = static_cast<double>(rng.range(-4, 4)) / 2.0;
+                t2.flat[static_cast<size_t>(2 * s + k)] = static_cast<double>(rng.range(-3, 3));
+            }
+            if (with_missing)
+            {
+                c2.missing[static_cast<size_t>(s)] = static_cast<char>(rng.coin(1, 10));
+                t2.missing[static_cast<size_t>(s)] = static_cast<char>(rng.coin(1, 10));
+            }
+            if (!p.classification)
+            {
+                yc.flat[static_cast<size_t>(s)] += 0.75 * t2.flat[static_cast<size_t>(2 * s + 1)] - 1.25 * c2.at(s);
+            }
+        }
+        columns.push_back(c2);
+        columns.push_back(t1);
+        columns.push_back(t2);
+        columns.push_back(yc);
+        target = columns.size() - 1U;
+    }
     p.source = std::make_unique<table_datasource_t>(n, columns, target);
     p.source->load();
     p.dataset = std::make_unique<dataset_t>(*p.source, static_cast<size_t>(rng.range(1, 4)));
